@@ -228,6 +228,9 @@ Definition short_type (ty : N * N) : Prop :=
 Record TablesOK : Prop := {
   tk_short : forall ty v et ix, find_sub_element T ty SHORTN v = Val (Some (et, ix)) -> short_type et;
   tk_ref : forall ty, is_ref T ty = Val true -> content_mode T ty = Val MCharacters;
+  (* the values a reference type accepts are strings *)
+  tk_refspec : forall ty cs v ver, is_ref T ty = Val true -> chardata_spec T ty = Val (Some cs) ->
+               check_value check_fn v cs ver = Val true -> exists s, v = DString s;
   tk_root : forall ed, elem T (autosar_element T) = Val ed -> ed_name ed <> SHORTN
 }.
 
